@@ -55,6 +55,7 @@ def run(ctx):
     ctx.run_rule("STc", r_round.rule_ST_c)
     ctx.run_rule("STr", r_round.rule_ST_rust, ["pure-full"])
     ctx.run_rule("K5c", r_round.rule_K5_c)
+    ctx.run_rule("R1cv", r_round.rule_R1_cvec)
     ctx.run_rule("K5r", r_round.rule_K5_rust, ["pure-full"])
     for name in ("rule_R1_c",):
         if hasattr(r_round, name):
